@@ -33,7 +33,7 @@ class PhysCtx:
         self.term_sites = np.array(sorted(ts), dtype=int)
         self.tree = h.tree
         self.tctx = h.ctx
-        self.z0 = scn["device"]["layer"].get("z0", 0.0)
+        self.z0 = scn["device"]["layer"].get("z0", 0.0) + (scn.get("device_moved") or {}).get("dz", 0.0) * scn["device"]["layer"]["xi"]
         tp = scn["options"].get("terminal_psi", 0.0)
         if isinstance(tp, dict):
             tp = complex(tp["re"], tp["im"])
